@@ -10,14 +10,6 @@ pub open spec fn extent(d: DfaCore, cls: Cls, text: Seq<char>, l: int, tid: Term
     blen(text.take(l)) + la_len(d, cls, tid, text.skip(l))
 }
 
-pub open spec fn is_prio(ids: Seq<TerminalID>, tid: TerminalID, r: int) -> bool {
-    0 <= r < ids.len() && ids[r] == tid && forall|j: int| 0 <= j < r ==> ids[j] != tid
-}
-
-pub open spec fn prio(d: DfaCore, tid: TerminalID) -> int {
-    choose|r: int| is_prio(d.terminal_ids@, tid, r)
-}
-
 /// (l, tid) is at least as good as (l2, tid2): larger extent, or equal extent and not lower priority
 pub open spec fn no_better(d: DfaCore, cls: Cls, text: Seq<char>, l: int, tid: TerminalID, l2: int, tid2: TerminalID) -> bool {
     extent(d, cls, text, l2, tid2) < extent(d, cls, text, l, tid)
